@@ -269,7 +269,26 @@ example : ∀ x ∈ ([⟨1, [0x03, 0x00, 0x6B, 0x00, 0x03]⟩, ⟨2, [0x17, 0, 1
     Spec.PduComplete .req x.pdu ∧ x.pdu[0]? ≠ some 0x0F ∧ x.pdu[0]? ≠ some 0x10 := by
   unfold Spec.PduComplete; decide
 
-/-- the 24-byte stream of `demoFrames` -/
+example : ∀ x ∈ ([⟨1, 1, [0x03, 0x02, 0x00, 0x07]⟩, ⟨2, 1, [0x18, 0x00, 0x02, 0xAA, 0xBB]⟩, ⟨3, 1, [0x90, 0x04]⟩] : List Tcp.Frame),
+    Spec.PduComplete .rsp x.pdu ∧ x.pdu.length + 1 < 65536 := by
+  unfold Spec.PduComplete; decide
+
+/-- cutting a stream into single bytes is one of the chunkings -/
+theorem flatten_singletons (b : Bytes) : (b.map fun x => [x]).flatten = b := by
+  induction b with
+  | nil => rfl
+  | cons a t ih => simp only [List.map_cons, List.flatten_cons, ih, List.singleton_append]
+
+/-- a TCP response stream of three frames delivered one byte at a time plus an empty piece, from the theorem -/
+example (xs : List Tcp.Frame)
+    (hxs : xs = [⟨1, 1, [0x03, 0x02, 0x00, 0x07]⟩, ⟨2, 1, [0x18, 0x00, 0x02, 0xAA, 0xBB]⟩, ⟨3, 1, [0x90, 0x04]⟩]) :
+    ([] :: ((xs.map tcpWire).flatten.map fun b => [b])).foldl (recv Tcp.decodeRsp) ⟨[], [], false⟩ =
+      ⟨[], xs, false⟩ := by
+  apply tcp_rsp_reassembly
+  · subst hxs; unfold Spec.PduComplete; decide
+  · rw [List.flatten_cons, List.nil_append, flatten_singletons]
+
+/-- the 22-byte stream of `demoFrames` -/
 example : (demoFrames.map rtuWire).flatten =
     [0x01, 0x03, 0x04, 0x00, 0x0A, 0x01, 0x02, 0x5A, 0x60,
      0x01, 0x83, 0x02, 0xC0, 0xF1,
